@@ -150,9 +150,16 @@ def gen_adds(args):
   rng = random.Random(seed)
   rate = Fraction(num, den)
   out = []
+  fpsn = -(-num // den)                     # nominal frames per second
   for _ in range(count):
     n0 = rng.randrange(0, maxn - 200000)
     d = rng.choice([0, 1, 2, rng.randrange(1, 200), rng.randrange(1, 200000)])     # 0 additions = no change
+    if rng.random() < 0.4:
+      # start within a second before a whole minute (by frame count at the exact rate), step of up to two seconds: the
+      # additions that cross a minute label, with and without dropped labels
+      minute = rng.randrange(1, 24 * 60) * 60
+      n0 = max(0, minute * num // den - rng.randrange(0, fpsn + 3))
+      d = rng.randrange(0, 2 * fpsn + 2)
     tc = SmpteTimeCode.from_frames(n0, rate)
     tc.add_frames(d)
     p = _pack(_fields(tc))
